@@ -28,7 +28,7 @@ META = {
         "R3 (MCP): the input sniffer routes '['-prefixed text to serde_json and everything else to the DSL parser; "
         "convert_to_dsl calls the shared writer. R4 (tokens): each token rule a placeholder is matched against accepts every text of that "
         "kind the writer can print (all alphanumeric tickers, all digits[.digits] decimals, all dddd-dd-dd dates; character-level PEG "
-        "evaluation of the token rule on all words up to a bound). Exactness of Decimal Display/FromStr is trusted, not decided. R6 (token conversions): in the parser module the text of a decimal/date token goes to Decimal::from_str / NaiveDate::parse_from_str and no parse error is built before that conversion (a length or scale test on the text refuses values the writer prints). R1 also: the zero test that omits an optional clause is the decimal library's exact `is_zero` on the printed field itself — not a test of a rounded or otherwise computed value."),
+        "evaluation of the token rule on all words up to a bound). Exactness of Decimal Display/FromStr is trusted, not decided. R6 (token conversions): in the parser module the text of a decimal/date token goes to Decimal::from_str / NaiveDate::parse_from_str and no parse error is built before that conversion (a length or scale test on the text refuses values the writer prints). R1 also: the zero test that omits an optional clause is the decimal library's exact `is_zero` on the printed field itself — not a test of a rounded or otherwise computed value. R1 also: the list-level writer neither sorts nor thins the list it is given; in the DSL parser, the writer and the money (de)serialisers Currency::from_code is the only currency-valued ISO function called."),
     "trusted_base": ["rust_decimal Display/FromStr round-trip exactly for every scale (trusted API)",
                      "chrono %Y-%m-%d prints what the grammar's date rule and parse_from_str read",
                      "serde derive writes and reads the same renamed names for one attribute set",
